@@ -3,6 +3,7 @@
 From Coq Require Import List String Bool.
 From Helm Require Import Common.Assoc Engine.Types Engine.Eff Engine.Ops Engine.Cluster Engine.Seq.
 From Helm Require Import Engine.MatchDefs Engine.MatchUpdate Engine.MatchExamples Engine.MatchRun Engine.MatchOps Engine.MatchSuccess.
+From Helm Require Import Engine.Obj2 Engine.Update2 Engine.Merge3Proofs Engine.MergeJsonProofs Engine.Update2Proofs Engine.Update2Spec Engine.MergeExamples.
 Import ListNotations.
 
 (* kube.Client.update against an API server that rejects nothing ([kfault = None]), for every
@@ -362,3 +363,308 @@ Theorem C02_rollback_over_failed_revision_leaks_refuted :
     aget (rkey r) (w_objs w') <> None.
 Proof. exact rollback_over_failed_revision_leaks. Qed.
 Print Assumptions C02_rollback_over_failed_revision_leaks_refuted.
+
+(* ================================================================================================ *)
+(* Round 4 — whole objects: nested maps, scalars, atomic lists and KEYED lists (containers by name,
+   ports by containerPort, env by name), custom kinds patched as JSON, --force.
+   Engine/Obj2.v: [tree], the four ways kube.Client.updateResource/createPatch update one live object
+   ([merge_by]: strategic three-way [s3], two-way JSON merge patch [j2], three-way JSON merge patch
+   [j3], replace); Engine/Update2.v: Client.update over a store of trees ([k2_update]).
+   [tget p x]: the value at path p (map member names and keyed-list element keys). *)
+
+(* Strategic three-way merge (built-in kinds), for ALL original / target / live: every path the target
+   manifest specifies holds the target's value in the result — scalars and atomic lists as they are, maps
+   and keyed lists as maps and keyed lists — also inside keyed-list elements, whatever the live object held. *)
+Theorem C02_obj_strategic_specified :
+  forall (p : list string) (o : option tree) (t : tree) (l : option tree) (v : tree),
+    tget p t = Some v ->
+    match v with
+    | TS _ | TA _ => tget p (s3 o t l) = Some v
+    | TM _ => exists m, tget p (s3 o t l) = Some (TM m)
+    | TK _ => exists m, tget p (s3 o t l) = Some (TK m)
+    end.
+Proof. exact s3_specified. Qed.
+Print Assumptions C02_obj_strategic_specified.
+
+(* one level of the result, entry by entry.  Maps: *)
+Theorem C02_obj_strategic_map_level :
+  forall (o : option tree) (tm lm : list (string * tree)),
+    exists rm, s3 o (TM tm) (Some (TM lm)) = TM rm /\
+      forall k, aget k rm =
+        match aget k tm with
+        | Some tv => Some (s3 (aget k (kidsM o)) tv (aget k lm))        (* specified: merged below *)
+        | None => if amem k (kidsM o) then None                          (* dropped by the target: removed *)
+                  else aget k lm                                         (* foreign: kept *)
+        end.
+Proof. intros. eexists. split; [apply s3_TM|]. intros k. apply s3_get_M. Qed.
+Print Assumptions C02_obj_strategic_map_level.
+
+(* ... keyed lists, element by element (the merge key in the role of the member name).  An element the
+   live list lacks is appended as the patch holds it, ghosts included ([ghost], Engine/Obj2.v) *)
+Theorem C02_obj_strategic_klist_level :
+  forall (o : option tree) (tk lk : list (string * tree)),
+    exists rk, s3 o (TK tk) (Some (TK lk)) = TK rk /\
+      forall k, aget k rk =
+        match aget k tk with
+        | Some tv => Some (match aget k lk with
+                           | Some lv => s3 (aget k (kidsK o)) tv (Some lv)
+                           | None => ghost (aget k (kidsK o)) tv
+                           end)
+        | None => if amem k (kidsK o) then None else aget k lk
+        end.
+Proof. intros. eexists. split; [apply s3_TK|]. intros k. apply s3_get_K. Qed.
+Print Assumptions C02_obj_strategic_klist_level.
+
+(* foreign entries / elements (only in live) are kept, with everything below them, wherever target and live
+   are containers of the same kind down to the place ([merges q t l]) *)
+Theorem C02_obj_strategic_foreign_kept :
+  forall (q : list string) (o : option tree) (t l : tree) (k : string) (r : list string),
+    merges q t l ->
+    tget (q ++ [k]) t = None ->
+    otget (q ++ [k]) o = None ->
+    tget (q ++ k :: r) (s3 o t (Some l)) = tget (q ++ k :: r) l.
+Proof. exact s3_foreign. Qed.
+Print Assumptions C02_obj_strategic_foreign_kept.
+
+(* entries / elements the target dropped (in original, not in target) are removed, wherever all three are
+   containers of the same kind down to the place *)
+Theorem C02_obj_strategic_dropped_removed :
+  forall (q : list string) (o t l : tree) (k : string) (r : list string),
+    merges3 q o t l ->
+    tget (q ++ [k]) t = None ->
+    tget (q ++ [k]) o <> None ->
+    tget (q ++ k :: r) (s3 (Some o) t (Some l)) = None.
+Proof. exact s3_dropped. Qed.
+Print Assumptions C02_obj_strategic_dropped_removed.
+
+(* keyed-list order: the elements the target names stand in the target's order; the live-only elements the
+   original does not name follow in live order.  (The real library interleaves the two groups; the
+   correspondence run compares each of the two subsequences with the real result.) *)
+Theorem C02_obj_klist_order :
+  forall (o : option tree) (tk lk : list (string * tree)),
+    exists rk, s3 o (TK tk) (Some (TK lk)) = TK rk /\
+      akeys rk = (akeys tk ++ filter (fun k => negb (amem k tk) && negb (amem k (kidsK o))) (akeys lk))%list /\
+      filter (fun k => amem k tk) (akeys rk) = akeys tk /\
+      filter (fun k => negb (amem k tk)) (akeys rk)
+        = filter (fun k => negb (amem k tk) && negb (amem k (kidsK o))) (akeys lk).
+Proof. exact s3_klist_order. Qed.
+Print Assumptions C02_obj_klist_order.
+
+(* --force: exactly the target object *)
+Theorem C02_obj_force_exact :
+  forall (o t l : tree), merge_by UForce o t l = t.
+Proof. exact force_is_target. Qed.
+Print Assumptions C02_obj_force_exact.
+
+(* Custom kinds through Client.Update (upgrade, rollback): the TWO-way JSON merge patch
+   CreateMergePatch(old manifest, new manifest) applied to the live object.  [mget]: member paths
+   (through maps; a list is a value).  A value that is not a map, specified by the target at p, is in the
+   result PROVIDED the target changed it with respect to the original, or the live object already held it. *)
+Theorem C02_obj_json2_specified :
+  forall (p : list string) (om tm lm : list (string * tree)) (v : tree),
+    wf_tree (TM om) = true -> wf_tree (TM tm) = true ->
+    mget p (TM tm) = Some v -> nonmap v = true ->
+    (same_at p (TM om) v = false \/ mget p (TM lm) = Some v) ->
+    mget p (j2 (TM om) (TM tm) (TM lm)) = Some v.
+Proof. exact j2_specified. Qed.
+Print Assumptions C02_obj_json2_specified.
+
+(* ... and the proviso is needed: known finding K8-C02.  Both manifests give p the value v, the live object
+   lost it, the successful update does not bring it back.  Witness replayed on the real code (corpus). *)
+Theorem C02_obj_json2_unchanged_drift_refuted :
+  exists (om tm lm : list (string * tree)) (p : list string) (v : tree),
+    wf_tree (TM om) = true /\ wf_tree (TM tm) = true /\ wf_tree (TM lm) = true /\
+    mget p (TM tm) = Some v /\ nonmap v = true /\
+    same_at p (TM om) v = true /\
+    mget p (TM lm) <> Some v /\
+    mget p (j2 (TM om) (TM tm) (TM lm)) <> Some v.
+Proof. exact j2_unchanged_drift_refuted. Qed.
+Print Assumptions C02_obj_json2_unchanged_drift_refuted.
+
+(* one level of the result of the two-way patch, member by member ([entry]: what the patch says about a
+   member of the target: nothing when both manifests agree) *)
+Theorem C02_obj_json2_level :
+  forall (a b lm : list (string * tree)) (k : string),
+    NoDup (akeys a) -> NoDup (akeys b) ->
+    aget k (japply_level (jdiff a b) lm) =
+      match aget k b with
+      | Some bv => match entry a k bv with
+                   | Some pv => japply (aget k lm) pv
+                   | None => aget k lm
+                   end
+      | None => if amem k a then None else aget k lm
+      end.
+Proof. exact j2_level_get. Qed.
+Print Assumptions C02_obj_json2_level.
+
+Theorem C02_obj_json2_foreign_kept :
+  forall (q : list string) (om tm lm : list (string * tree)) (k : string) (r : list string),
+    wf_tree (TM om) = true -> wf_tree (TM tm) = true ->
+    maps3 q (TM om) (TM tm) (TM lm) ->
+    mget (q ++ [k]) (TM tm) = None -> mget (q ++ [k]) (TM om) = None ->
+    mget (q ++ k :: r) (j2 (TM om) (TM tm) (TM lm)) = mget (q ++ k :: r) (TM lm).
+Proof. exact j2_foreign. Qed.
+Print Assumptions C02_obj_json2_foreign_kept.
+
+Theorem C02_obj_json2_dropped_removed :
+  forall (q : list string) (om tm lm : list (string * tree)) (k : string) (r : list string),
+    wf_tree (TM om) = true -> wf_tree (TM tm) = true ->
+    maps3 q (TM om) (TM tm) (TM lm) ->
+    mget (q ++ [k]) (TM tm) = None -> mget (q ++ [k]) (TM om) <> None ->
+    mget (q ++ k :: r) (j2 (TM om) (TM tm) (TM lm)) = None.
+Proof. exact j2_dropped. Qed.
+Print Assumptions C02_obj_json2_dropped_removed.
+
+(* ---- kube.Client.update over a store of whole objects, an API server that accepts every request ----
+   A resource is identified by (namespace, API group, kind, name) — [r2_key]; the version part of its
+   apiVersion ([r2_ver]) is not part of the identity.  For every original manifest, every target manifest with
+   distinct identities and EVERY content of the store: *)
+Theorem C02_obj_update_matches :
+  forall (force tw : bool) (o : store2) (cur tgt : list res2) (o' : store2) (created : list string)
+         (muts : list (verb * string)),
+    NoDup (map r2_key tgt) ->
+    k2_update force tw o cur tgt = (o', (true, created), muts) ->
+    (* (i) every target exists: created as posted, or the merge of (its old manifest entry, itself, live) in
+           the way its kind and the flags select *)
+    (forall t, In t tgt ->
+       match aget (r2_key t) o with
+       | None => aget (r2_key t) o' = Some (r2_obj t)
+       | Some live =>
+           exists old, find_res2 (r2_key t) cur = Some old /\
+                       aget (r2_key t) o' = Some (merge_by (mode_of force tw t) (r2_obj old) (r2_obj t) live)
+       end) /\
+    (* (ii) resources dropped by the new manifest are gone, unless the LIVE object carries the keep policy *)
+    (forall x, In x cur -> in_keys2 (r2_key x) tgt = false ->
+       match aget (r2_key x) o with
+       | Some live => if live_keep2 live then aget (r2_key x) o' = Some live
+                      else aget (r2_key x) o' = None
+       | None => aget (r2_key x) o' = None
+       end) /\
+    (* (iii) nothing else changes *)
+    (forall key, in_keys2 key cur = false -> in_keys2 key tgt = false -> aget key o' = aget key o).
+Proof. exact update2_matches. Qed.
+Print Assumptions C02_obj_update_matches.
+
+(* ... end to end for built-in kinds and --force: every path a target entry specifies holds its value *)
+Theorem C02_obj_update_specified :
+  forall (force tw : bool) (o : store2) (cur tgt : list res2) (o' : store2) (created : list string)
+         (muts : list (verb * string)),
+    NoDup (map r2_key tgt) ->
+    k2_update force tw o cur tgt = (o', (true, created), muts) ->
+    forall t, In t tgt -> (force = true \/ r2_unstr t = false) ->
+    forall p v, tget p (r2_obj t) = Some v ->
+    exists live', aget (r2_key t) o' = Some live' /\
+      match v with
+      | TS _ | TA _ => tget p live' = Some v
+      | TM _ => exists m, tget p live' = Some (TM m)
+      | TK _ => exists m, tget p live' = Some (TK m)
+      end.
+Proof. exact update2_specified. Qed.
+Print Assumptions C02_obj_update_specified.
+
+(* ... and for custom kinds through Client.Update, with the proviso of C02_obj_json2_specified *)
+Theorem C02_obj_update_specified_json2 :
+  forall (o : store2) (cur tgt : list res2) (o' : store2) (created : list string) (muts : list (verb * string)),
+    NoDup (map r2_key tgt) ->
+    k2_update false false o cur tgt = (o', (true, created), muts) ->
+    forall t tm, In t tgt -> r2_unstr t = true -> r2_obj t = TM tm -> wf_tree (TM tm) = true ->
+    forall p v, mget p (TM tm) = Some v -> nonmap v = true ->
+    (forall live old, aget (r2_key t) o = Some live -> find_res2 (r2_key t) cur = Some old ->
+       exists lm om, live = TM lm /\ r2_obj old = TM om /\ wf_tree (TM om) = true /\
+                     (same_at p (TM om) v = false \/ mget p (TM lm) = Some v)) ->
+    exists live', aget (r2_key t) o' = Some live' /\ mget p live' = Some v.
+Proof. exact update2_specified_json2. Qed.
+Print Assumptions C02_obj_update_specified_json2.
+
+Theorem C02_obj_update_fails_iff_unknown_live_target :
+  forall (force tw : bool) (o : store2) (cur tgt : list res2),
+    NoDup (map r2_key tgt) ->
+    (fst (snd (fst (k2_update force tw o cur tgt))) = false <->
+     exists t, In t tgt /\ aget (r2_key t) o <> None /\ find_res2 (r2_key t) cur = None).
+Proof. exact update2_fails_iff. Qed.
+Print Assumptions C02_obj_update_fails_iff_unknown_live_target.
+
+(* the version is not part of the identity: the same two manifests with every entry at ANY version of its
+   API group ([same_but_ver a b]: b is a with another r2_ver) give the same store, the same result, the
+   same created keys, the same mutations — in particular an entry that moves from apps/v1beta2 to apps/v1 is
+   patched from its old entry and is not deleted as "removed from the manifest" (seeded C02-7) *)
+Theorem C02_obj_update_ignores_version :
+  forall (force tw : bool) (o : store2) (cur cur' tgt tgt' : list res2),
+    Forall2 (fun a b => b = with_ver (r2_ver b) a) cur cur' ->
+    Forall2 (fun a b => b = with_ver (r2_ver b) a) tgt tgt' ->
+    k2_update force tw o cur' tgt' = k2_update force tw o cur tgt.
+Proof. exact update2_ignores_version. Qed.
+Print Assumptions C02_obj_update_ignores_version.
+
+(* ---- non-vacuity and a record of what the merges do (same triples in the harness corpus) ---- *)
+Example C02_obj_strategic_drift_corrected :
+  s3 (Some ex_o) ex_t (Some ex_l) =
+  dep [("web", TM [("args", TA [js "-v"; js "--debug"]);
+                   ("env", TK [("C", envv "3"); ("A", envv "1"); ("X", envv "foreign")]);
+                   ("image", js "nginx:1.25")]);
+       ("istio", TM [("image", js "proxy:1")])]%string "2"%string [("foreign", js "f")]%string.
+Proof. exact strategic_drift_corrected. Qed.
+Print Assumptions C02_obj_strategic_drift_corrected.
+
+Example C02_obj_strategic_hypotheses_met :
+  (* p_env: spec.template.spec.containers[web].env; p_envA: ...env[A].value *)
+  tget p_envA ex_t = Some (js "1") /\
+  tget p_envA ex_l = Some (js "EDITED") /\
+  merges p_env ex_t ex_l /\ merges3 p_env ex_o ex_t ex_l /\
+  tget (p_env ++ ["X"%string]) ex_t = None /\ tget (p_env ++ ["X"%string]) ex_o = None /\
+  tget (p_env ++ ["X"%string]) ex_l <> None /\
+  tget (p_env ++ ["B"%string]) ex_t = None /\ tget (p_env ++ ["B"%string]) ex_o <> None /\
+  tget (p_env ++ ["B"%string]) ex_l <> None.
+Proof. exact strategic_hypotheses_met. Qed.
+Print Assumptions C02_obj_strategic_hypotheses_met.
+
+(* the library's ghost: container web deleted out of band comes back with a bare element for the env var B that
+   the new manifest dropped *)
+Example C02_obj_strategic_ghost_element :
+  tget p_env (s3 (Some ex_o) ex_t (Some ex_l_noweb))
+  = Some (TK [("C", envv "3"); ("A", envv "1"); ("B", TM [])]%string).
+Proof. exact strategic_ghost_element. Qed.
+Print Assumptions C02_obj_strategic_ghost_element.
+
+(* whole-map removal, formerly outside the model: the foreign entry goes with the map *)
+Example C02_obj_strategic_whole_map_removed :
+  s3 (Some (TM [("data", TM [("k", js "v1")]); ("metadata", TM [])]%string))
+     (TM [("metadata", TM [])]%string)
+     (Some (TM [("data", TM [("k", js "v1"); ("foreign", js "f")]); ("metadata", TM [])]%string))
+  = TM [("metadata", TM [])]%string.
+Proof. exact strategic_whole_map_removed. Qed.
+Print Assumptions C02_obj_strategic_whole_map_removed.
+
+Example C02_obj_json2_result :
+  j2 w_o w_t w_l = wid "2" "DRIFT" [("cpu", js "DRIFT"); ("foreign", js "f")]%string [js "web"; js "DRIFT"].
+Proof. exact json2_result. Qed.
+Print Assumptions C02_obj_json2_result.
+
+(* the three-way JSON patch of UpdateThreeWayMerge (install --take-ownership) corrects the same drift *)
+Example C02_obj_json3_result :
+  teqv (j3 w_o w_t w_l) (wid "2" "web" [("cpu", js "v1"); ("foreign", js "f"); ("memory", js "v1")]%string [js "web"]) = true.
+Proof. exact json3_result. Qed.
+Print Assumptions C02_obj_json3_result.
+
+Example C02_obj_json2_hypotheses_met :
+  wf_tree w_o = true /\ wf_tree w_t = true /\
+  mget ["spec"; "size"]%string w_t = Some (TS "2") /\ nonmap (TS "2") = true /\
+  same_at ["spec"; "size"]%string w_o (TS "2") = false /\
+  maps3 ["spec"; "limits"]%string w_o w_t w_l /\
+  mget (["spec"; "limits"] ++ ["foreign"])%list%string w_t = None /\ mget (["spec"; "limits"] ++ ["foreign"])%list%string w_o = None /\
+  mget (["spec"; "limits"] ++ ["foreign"])%list%string w_l <> None.
+Proof. exact json2_hypotheses_met. Qed.
+Print Assumptions C02_obj_json2_hypotheses_met.
+
+Example C02_obj_update_example :
+  let '(o', r, muts) := k2_update false false ex_store
+                          [r_dep "v1beta2" ex_o; r_wid "w1" w_o; r_wid "w2" w_o]
+                          [r_dep "v1" ex_t; r_wid "w1" w_t; r_wid "w3" w_t] in
+  r = (true, [r2_key (r_wid "w3" w_t)]) /\
+  map fst o' = [r2_key (r_dep "v1" ex_o); r2_key (r_wid "w1" w_o); r2_key (r_wid "w2" w_o);
+                "default//ConfigMap/bystander"%string; r2_key (r_wid "w3" w_t)] /\
+  aget (r2_key (r_wid "w2" w_o)) o' = Some keepw /\
+  aget (r2_key (r_wid "w3" w_t)) o' = Some w_t /\
+  NoDup (map r2_key [r_dep "v1" ex_t; r_wid "w1" w_t; r_wid "w3" w_t]).
+Proof. exact update2_example. Qed.
+Print Assumptions C02_obj_update_example.
